@@ -34,7 +34,8 @@ def run(ctx):
     # one race-enabled test binary runs both parts: (i) the deterministic differential run in which the harness
     # plays the processor goroutine, (ii) scripted services under the real supervisor.New
     rc, out = ctx.go_test("node", "./pkg/supervisor", "^TestVerifSupervisor(Sim|Trace)$", ov, race=True, timeout=900)
-    files = [os.path.join(ctx.work, n) for n in ("supervisor.cases", "supervisor_trace.cases")]
+    # traces first: a scripted scenario makes the more readable replay when several cases fail the same clause
+    files = [os.path.join(ctx.work, n) for n in ("supervisor_trace.cases", "supervisor.cases")]
     have = [p for p in files if os.path.exists(p) and os.path.getsize(p) > 0]
     if rc != 0:
         tail = out[-1200:]
